@@ -61,6 +61,10 @@ def run(ctx):
               key=('T1', 'recursion', str(cycles[:1])), detail={'cycles': cycles})
 
     # ---------------------------------------------------------------- T2 escape set
+    # the escape analysis below reads `payload.type == T` tests as "the object has class type_2_payload[T]" (and therefore the
+    # attributes that class sets): that holds when every registry entry's class declares the type it is registered under
+    from .c05 import registry_consistent
+    registry_consistent(ctx, 'T2')
     hier = esc.hier
     family = 'IkeSaError'
     ctx.require(hier.known(family), 'anchor vanished: protocol-error base class IkeSaError')
